@@ -159,7 +159,7 @@ fn record(st: &mut Stats, d: &DataDesc, r: Result<bool, Failure>, case: impl Fn(
 }
 
 pub fn run(ctx: &mut Ctx) {
-    ctx.rule = "systematic sweep: every payload length 0..=242 x every FOpts length 0..=15 x 4 frame types x {Data, MacCommands} (+ no-payload) with random contents/keys/counters from the boundary set, through DefaultCrypto and DefaultNetworkCrypto, exact/short/long buffers; refusal grid (FOpts 16/17 and far beyond the limit: 18..65552 bytes incl. the lengths that wrap to 0..15 mod 256 / mod 65536, FOpts with port 0, missing AppSKey, short buffers); proptest-random descriptions; a grid of data and join frames built with a user-supplied Crypto implementation that honours exactly the documented one-block-per-call contract; JoinRequest/JoinAccept descriptions (all DLSettings/RxDelay bytes, CFList none/type0/type1). Non-trivial: payload >= 17 bytes (>= 2 keystream blocks) or FCnt >= 2^16 or FOpts non-empty or a refusal case or JoinAccept with CFList; distinct by hash of the full case".into();
+    ctx.rule = "systematic sweep: every payload length 0..=242 x every FOpts length 0..=15 x 4 frame types x {Data, MacCommands} (+ no-payload) with random contents/keys/counters from the boundary set, through DefaultCrypto and DefaultNetworkCrypto, exact/short/long buffers; refusal grid (FOpts 16/17 and far beyond the limit: 18..65552 bytes incl. the lengths that wrap to 0..15 mod 256 / mod 65536, FOpts with port 0, missing AppSKey, short buffers; every buffer size 0..=frame length for every FOpts length x 3 payload shapes); proptest-random descriptions; a grid of data and join frames built with a user-supplied Crypto implementation that honours exactly the documented one-block-per-call contract; JoinRequest/JoinAccept descriptions (all DLSettings/RxDelay bytes, CFList none/type0/type1). Non-trivial: payload >= 17 bytes (>= 2 keystream blocks) or FCnt >= 2^16 or FOpts non-empty or a refusal case or JoinAccept with CFList; distinct by hash of the full case".into();
     ctx.assumptions = vec![
         "reference codec (verif-core/src/oracle/refcodec.rs, aes.rs) written from FIPS-197, RFC 4493 and the LoRaWAN 1.0.x specification; self-tested against published vectors at start".into(),
         "FCtrl bit 6 is written on uplinks only and bit 4 on downlinks only, as the builder documents".into(),
@@ -226,6 +226,29 @@ pub fn run(ctx: &mut Ctx) {
                             if plen >= 17 {
                                 st.class("multi-block-payload");
                             }
+                            record(st, &d, r, || data_case(&d, &nwk, Some(&app), buflen, net));
+                        }
+                    }
+                }
+            }
+        }
+        if ti == 1 % n {
+            // every buffer size below the frame's length (and the exact one), for every FOpts length and three
+            // payload shapes: too small a buffer is refused with BufferTooShort whatever part of the frame fits
+            for fol in 0..=15usize {
+                for pk in 0..3 {
+                    let nwk = rng.key();
+                    let app = rng.key();
+                    let payload = match pk {
+                        0 => RefPayload::None,
+                        1 => RefPayload::Data { port: 1 + rng.below(255) as u8, data: rng.bytes(0) },
+                        _ => RefPayload::Data { port: 1 + rng.below(255) as u8, data: rng.bytes(5 + fol) },
+                    };
+                    let d = DataDesc { ftype: FType::ALL[(fol + pk) % 4], dev_addr: rng.next_u32(), adr: fol & 1 != 0, adr_ack_req: false, ack: fol & 2 != 0, f_pending: false, fcnt: *rng.pick(&FCNT_BOUNDARIES), fopts: rng.bytes(fol), payload };
+                    for buflen in 0..=legal_len(&d) {
+                        for net in [false, true] {
+                            let r = check_data(&d, &nwk, Some(&app), buflen, net);
+                            st.class("every-short-buffer-size");
                             record(st, &d, r, || data_case(&d, &nwk, Some(&app), buflen, net));
                         }
                     }
